@@ -1,0 +1,72 @@
+//go:build verif
+
+package nebula
+
+import (
+	"context"
+	"log/slog"
+	"net/netip"
+
+	"github.com/gaissmai/bart"
+	"github.com/slackhq/nebula/cert"
+	"github.com/slackhq/nebula/config"
+)
+
+// Thin exports for the verification harness (engine `lighthouse`). No behaviour.
+
+// VerifCertState builds the part of a CertState the lighthouse reads.
+func VerifCertState(v cert.Version, nets []netip.Prefix) *CertState {
+	nt := new(bart.Lite)
+	for _, n := range nets {
+		nt.Insert(n)
+	}
+	return &CertState{initiatingVersion: v, myVpnNetworks: nets, myVpnNetworksTable: nt}
+}
+
+// VerifNewPunchy builds a Punchy whose scheduler is not drained by a worker, so that scheduled jobs can be
+// read back with VerifPunchyDrain.
+func VerifNewPunchy(ctx context.Context, l *slog.Logger, c *config.C) *Punchy {
+	p := NewPunchyFromConfig(l, c, nil)
+	p.ctx = ctx
+	return p
+}
+
+// VerifPunchyDrain returns the jobs whose delay has elapsed: (target, vpnAddr) pairs.
+func VerifPunchyDrain(p *Punchy) (targets []netip.AddrPort, vpnAddrs []netip.Addr) {
+	for {
+		select {
+		case j := <-p.sched.queue:
+			targets = append(targets, j.target)
+			vpnAddrs = append(vpnAddrs, j.vpnAddr)
+		default:
+			return
+		}
+	}
+}
+
+func VerifNewLightHouse(ctx context.Context, l *slog.Logger, c *config.C, cs *CertState, p *Punchy, w EncWriter, trigger chan<- netip.Addr) (*LightHouse, error) {
+	lh, err := NewLightHouseFromConfig(ctx, l, c, cs, nil, p)
+	if err != nil {
+		return nil, err
+	}
+	lh.ifce = w
+	lh.handshakeTrigger = trigger
+	return lh, nil
+}
+
+// VerifLHAddrMap copies the addrMap (keys -> *RemoteList) under the lock.
+func VerifLHAddrMap(lh *LightHouse) map[netip.Addr]*RemoteList {
+	lh.RLock()
+	defer lh.RUnlock()
+	m := make(map[netip.Addr]*RemoteList, len(lh.addrMap))
+	for k, v := range lh.addrMap {
+		m[k] = v
+	}
+	return m
+}
+
+func VerifRLVpnAddrs(r *RemoteList) []netip.Addr {
+	r.RLock()
+	defer r.RUnlock()
+	return append([]netip.Addr{}, r.vpnAddrs...)
+}
